@@ -242,6 +242,21 @@ def check_trotter(ctx):
         rz_all = [c for c in body_walk(ft.node) if isinstance(c, ast.Call) and isinstance(c.func, ast.Call) and isinstance(c.func.func, ast.Name) and c.func.func.id == "RZ"]
         cn_all = [c for c in body_walk(ft.node) if isinstance(c, ast.Call) and isinstance(c.func, ast.Name) and c.func.id == "CNOT"]
         pair_comps = [n for n in body_walk(ft.node) if isinstance(n, (ast.ListComp, ast.GeneratorExp)) and len(n.generators) == 1 and not n.generators[0].ifs and norm(n.generators[0].iter) == "zip(qubit_indices, qubit_indices[1:])" and isinstance(n.generators[0].target, ast.Tuple) and len(n.generators[0].target.elts) == 2]
+        if len(rz_all) == 1 and not cn_all:
+            # the ladder is built by a helper of this module from the sequence it is given: Circuit([CNOT(c, t) for c, t in zip(p, p[1:])]).
+            # The rotation sits on the last of the *ascending* qubits, so the helper must be handed exactly that ascending sequence
+            for c in [x for x in body_walk(ft.node) if isinstance(x, ast.Call) and isinstance(x.func, ast.Name) and x.func.id in ft.module.functions and len(x.args) == 1]:
+                h = ft.module.functions[c.func.id]
+                hp = positional_params(h.node)
+                hc = [n for n in body_walk(h.node) if isinstance(n, (ast.ListComp, ast.GeneratorExp)) and len(n.generators) == 1 and len(hp) == 1 and norm(n.generators[0].iter) == f"zip({hp[0]}, {hp[0]}[1:])" and isinstance(n.elt, ast.Call) and dotted(n.elt.func) == "CNOT"]
+                if hc:
+                    ctx.analysed(h)
+                    arg = norm(c.args[0])
+                    ctx.check(arg in ("qubit_indices", "tuple(qubit_indices)", "list(qubit_indices)"), R2, ft.key + ":ladder", "the ladder helper receives the ascending qubits", f"the CNOT ladder is built by {h.qualname}({short(c.args[0])}) while the rotation sits on qubit_indices[-1], the last of the *sorted* qubits: for a term whose qubits are not listed in ascending order the ladder accumulates the parity on another qubit than the one that is rotated", f"{ft.module.relpath}:{c.lineno}")
+                    want = p_mul(p_const(2), p_mul(p_atom("time"), p_atom("term.coefficient.real")))
+                    okrz = poly_eq(poly(rz_all[0].func.args[0]), want) and len(rz_all[0].args) == 1 and norm(rz_all[0].args[0]) == "qubit_indices[-1]"
+                    ctx.check(okrz, R2, ft.key + ":central-rotation", "RZ(2*time*coefficient.real) on the last qubit", f"the central rotation is {short(rz_all[0])}, not RZ(2*time*term.coefficient.real) on the last of the ascending qubits", ft)
+                    return
         if len(rz_all) == 1 and len(cn_all) == 1 and len(pair_comps) == 1 and pair_comps[0].elt is cn_all[0]:
             want = p_mul(p_const(2), p_mul(p_atom("time"), p_atom("term.coefficient.real")))
             okrz = poly_eq(poly(rz_all[0].func.args[0]), want) and len(rz_all[0].args) == 1 and norm(rz_all[0].args[0]) == "qubit_indices[-1]"
